@@ -115,9 +115,12 @@ fn get_prototype_member_path(member: &MemberExpr, parts: &mut Vec<Ident>) -> boo
         } else if member.obj.is_ident() {
             let last_ident = member.obj.as_ident().unwrap();
             parts.push(last_ident.clone());
+            return true;
         }
     }
-    !parts.is_empty()
+    // only a static path rooted at an identifier (String.prototype.substring) can be read after the
+    // this-argument has been evaluated without changing the behaviour of the program
+    false
 }
 
 fn all_args_are_literal(args: &[ExprOrSpread]) -> bool {
